@@ -241,3 +241,96 @@ Definition run_ops_pinned (async : bool) (ops : list aop) : dstate :=
    the concatenation of the exchanges' own hook runs *)
 Definition run_sequence (xs : list (list dumper * list hook)) : list emission :=
   flat_map (fun x => run_hooks (fst x) (snd x)) xs.
+
+(* ---------- request-level setters, in the order the caller makes them ----------
+   request.go: getDumpOptions (default: the four parts on, Output = the request's dump buffer),
+   SetDumpOptions (nil Output -> the buffer; the value is copied INTO the existing struct, or the
+   struct is adopted when there is none yet), EnableDump (builds the request-level Dumper around
+   the struct - a pointer, so later changes of the struct are seen by the Dumper), EnableDumpTo,
+   EnableDumpWithoutXxx (change fields of the struct, then EnableDump).
+   State: the struct (if any) and whether a Dumper has been put into the request's context. *)
+Inductive rop :=
+| RSet (o : options) | REnable | RTo (w : writer)
+| RNoBody | RNoHeader | RNoResponse | RNoRequest | RNoReqBody | RNoRespBody.
+
+Definition default_req_options (buf : writer) : options :=
+  mkOpts (Some buf) None None None None None None true true true true false.
+
+Definition set_flags (o : options) (f : part -> bool -> bool) : options :=
+  mkOpts (o_out o) (o_req o) (o_resp o) (o_reqh o) (o_reqb o) (o_resph o) (o_respb o)
+         (f PReqH (on_reqh o)) (f PReqB (on_reqb o)) (f PRespH (on_resph o)) (f PRespB (on_respb o))
+         (o_async o).
+
+Definition switch_off (ps : list part) (o : options) : options :=
+  set_flags o (fun p b => if existsb (part_eqb p) ps then false else b).
+
+Definition rstate := (option options * bool)%type.
+
+Definition rstep (buf : writer) (st : rstate) (op : rop) : rstate :=
+  let cur := match fst st with Some o => o | None => default_req_options buf end in
+  match op with
+  | RSet o => (Some (request_set_options buf o), snd st)
+  | REnable => (Some cur, true)
+  | RTo w => (Some (set_out cur (Some w)), true)
+  | RNoBody => (Some (switch_off [PReqB; PRespB] cur), true)
+  | RNoHeader => (Some (switch_off [PReqH; PRespH] cur), true)
+  | RNoResponse => (Some (switch_off [PRespH; PRespB] cur), true)
+  | RNoRequest => (Some (switch_off [PReqH; PReqB] cur), true)
+  | RNoReqBody => (Some (switch_off [PReqB] cur), true)
+  | RNoRespBody => (Some (switch_off [PRespB] cur), true)
+  end.
+
+(* the options the request-level dumper works with when the request is sent; None: no dumper *)
+Definition run_rops (buf : writer) (ops : list rop) : option options :=
+  let st := fold_left (rstep buf) ops (None, false) in
+  if snd st then fst st else None.
+
+(* a SetDumpOptions that keeps the caller's pointer: the Dumper built earlier still looks at the
+   OLD struct.  State: struct the setters see, struct the Dumper looks at (if built). *)
+Definition rstep_keep (buf : writer) (st : option options * option options) (op : rop)
+  : option options * option options :=
+  match op with
+  | RSet o => (Some (request_set_options buf o), snd st)
+  | _ => let '(o', _) := rstep buf (fst st, true) op in (o', o')
+  end.
+Definition run_rops_keep (buf : writer) (ops : list rop) : option options :=
+  snd (fold_left (rstep_keep buf) ops (None, None)).
+
+(* ---------- several drainers on one queue ----------
+   Start takes a task from the channel and then writes it; with one Start goroutine per channel
+   (Dumper.Clone makes a fresh channel, Options.Clone starts one goroutine for it) take and write
+   of consecutive tasks cannot overlap.  Drainers are numbered; each holds at most one task. *)
+Inductive qop := QDump (t : task) | QTake (d : nat) | QWrite (d : nat).
+
+Record qstate := mkQ { q_queue : list task; q_held : list (nat * task); q_out : list task }.
+
+Fixpoint held_of (d : nat) (h : list (nat * task)) : option task :=
+  match h with
+  | [] => None
+  | (e, t) :: r => if Nat.eqb d e then Some t else held_of d r
+  end.
+Fixpoint drop_held (d : nat) (h : list (nat * task)) : list (nat * task) :=
+  match h with
+  | [] => []
+  | (e, t) :: r => if Nat.eqb d e then r else (e, t) :: drop_held d r
+  end.
+
+Definition qstep (st : qstate) (op : qop) : qstate :=
+  match op with
+  | QDump t => mkQ (q_queue st ++ [t]) (q_held st) (q_out st)
+  | QTake d =>
+      match held_of d (q_held st), q_queue st with
+      | None, t :: q => mkQ q (q_held st ++ [(d, t)]) (q_out st)
+      | _, _ => st
+      end
+  | QWrite d =>
+      match held_of d (q_held st) with
+      | Some t => mkQ (q_queue st) (drop_held d (q_held st)) (q_out st ++ [t])
+      | None => st
+      end
+  end.
+Definition run_qops (ops : list qop) : qstate := fold_left qstep ops (mkQ [] [] []).
+Definition qdumped (ops : list qop) : list task :=
+  flat_map (fun op => match op with QDump t => [t] | _ => [] end) ops.
+Definition drainer_of (op : qop) : option nat :=
+  match op with QDump _ => None | QTake d | QWrite d => Some d end.
